@@ -1,6 +1,6 @@
 (** Property C11 -- dump() reproduces the terminal for all future input .
     Only pinned statements, closed by [exact], with their assumptions printed. *)
-From Avt Require Import Oracles.Rel Spec.Screen Proofs.Inv Proofs.ParserInv Proofs.PenInv Proofs.ParamChop Proofs.Future Proofs.FutureInst Proofs.DumpParserRT Proofs.DumpPen Proofs.DumpRows Proofs.InvStep Proofs.PenInvProofs Proofs.DumpMargins Proofs.DumpScript.
+From Avt Require Import Oracles.Rel Spec.Screen Proofs.Inv Proofs.ParserInv Proofs.PenInv Proofs.ParamChop Proofs.Future Proofs.FutureInst Proofs.DumpParserRT Proofs.DumpPen Proofs.DumpRows Proofs.InvStep Proofs.PenInvProofs Proofs.DumpMargins Proofs.DumpScript Proofs.DumpFinal.
 
 (** THE FUTURE HALF: the observational equivalence established by a restore (executable statement holds_C11: same visible cells, pens, wrap marks, cursor, visibility, every mode, margins, tabs, charsets, saved contexts, parser state) is preserved by EVERY further input string - two terminals related by it stay related (and never panic) whatever is fed to both. Scrollback, its limit, dirty / trim flags and the discarded parked alternate buffer may differ. (PWf: parser data cleared in entry states - holds for every state reachable by feeding, see Proofs/Future.v.) *)
 Theorem C11_future : forall a b s a' oa, Inv a -> Inv b -> parked_ok (vterm a) -> parked_ok (vterm b) -> PWf (vparser a) -> PWf (vparser b) -> holds_C11 a b = true -> feed_str a s = Ok (a', oa) -> exists b' ob, feed_str b s = Ok (b', ob) /\ holds_C11 a' b' = true.
@@ -47,3 +47,11 @@ Theorem C11_dump_reachable : forall c r l ops v, 1 <= c -> 1 <= r -> Forall op_o
 Proof. exact C11_dump_run. Qed.
 Check C11_dump_reachable : forall c r l ops v, 1 <= c -> 1 <= r -> Forall op_ok ops -> runM (vt_new c r l) ops = Ok v -> dumpable' (vterm v) -> kf1_C11 (vterm v) = false -> kf2_C11 (vterm v) = false -> exists d r' o, vt_dump v = Ok d /\ feed_str (vt_new (cols (vterm v)) (rows (vterm v)) None) d = Ok (r', o) /\ holds_C11 v r' = true.
 Print Assumptions C11_dump_reachable.
+
+(** PROPERTY C11 IN ONE STATEMENT: for every history of feeds, flushes and resizes from a fresh terminal, outside the three
+    known-finding classes, dump() restores an observationally equal terminal, and original and restored stay observationally
+    equal - and never panic - after ANY further input (also any sequence of further feed_str calls). *)
+Theorem C11_restore_and_future : forall c r l ops v, 1 <= c -> 1 <= r -> Forall op_ok ops -> runM (vt_new c r l) ops = Ok v -> dumpable' (vterm v) -> kf1_C11 (vterm v) = false -> kf2_C11 (vterm v) = false -> exists d r0 o0, vt_dump v = Ok d /\ feed_str (vt_new (cols (vterm v)) (rows (vterm v)) None) d = Ok (r0, o0) /\ holds_C11 v r0 = true /\ forall s v' ov, feed_str v s = Ok (v', ov) -> exists r1 o1, feed_str r0 s = Ok (r1, o1) /\ holds_C11 v' r1 = true.
+Proof. exact C11_restore_and_future. Qed.
+Check C11_restore_and_future : forall c r l ops v, 1 <= c -> 1 <= r -> Forall op_ok ops -> runM (vt_new c r l) ops = Ok v -> dumpable' (vterm v) -> kf1_C11 (vterm v) = false -> kf2_C11 (vterm v) = false -> exists d r0 o0, vt_dump v = Ok d /\ feed_str (vt_new (cols (vterm v)) (rows (vterm v)) None) d = Ok (r0, o0) /\ holds_C11 v r0 = true /\ forall s v' ov, feed_str v s = Ok (v', ov) -> exists r1 o1, feed_str r0 s = Ok (r1, o1) /\ holds_C11 v' r1 = true.
+Print Assumptions C11_restore_and_future.
